@@ -158,7 +158,7 @@ def sub_queue(ctx, st):
     seed = str(ctx.seed)
     # (generator config, capacities, number of simulated behaviours or 0 = exhaustive enumeration)
     plan = ctx.pick([("MC_AdmissionGen_ops2.cfg", "1,2", 0), ("MC_AdmissionGen_ops3c.cfg", "1,2", 0), ("MC_AdmissionGen_sim8.cfg", "2,3", 25)],
-                    [("MC_AdmissionGen_ops3w.cfg", "2", 0), ("MC_AdmissionGen_ops4c.cfg", "1,3", 0), ("MC_AdmissionGen_sim12.cfg", "2,3", 150)])
+                    [("MC_AdmissionGen_ops3w.cfg", "2", 0), ("MC_AdmissionGen_ops4c.cfg", "1,2,3", 0), ("MC_AdmissionGen_sim12.cfg", "1,2,3", 150)])
     for i, (cfg, caps, nsim) in enumerate(plan):
         sp = ctx.path("gen_ops%d.ndjson" % i)
         g = gen(st, cfg, sp, simulate=nsim, depth=13)   # every behaviour ends when K operations are reached
@@ -167,7 +167,7 @@ def sub_queue(ctx, st):
         drive(st, ["-mode", "qscripts", "-in", sp, "-caps", caps, "-seed", seed, "-out", p])
         st.add_trace("queue", "q_scripts%d" % i, p, 1.0)
     p = ctx.path("tr_q_random.ndjson")
-    drive(st, ["-mode", "qrandom", "-seed", seed, "-n", str(ctx.pick(300, 2000)), "-ops", str(ctx.pick(40, 60)), "-out", p])
+    drive(st, ["-mode", "qrandom", "-seed", seed, "-n", str(ctx.pick(300, 4000)), "-ops", str(ctx.pick(40, 60)), "-out", p])
     st.add_trace("queue", "q_random", p, 1.2)
 
 
